@@ -11,6 +11,19 @@ package main
 // state  = C<conn> <inMulti 0|1> <n> {argc xname xarg…}   (read from the real connState)
 // tokens = one per Write* call: +xHEX -xHEX :INT $xHEX _ *INT =xHEX, `.` when none, `!PANIC` last
 //          when the handler chain panicked (recovered here; the real server would die).
+//
+// Usage (all streams derive every choice from -seed):
+//
+//	verifharness wire -seed N -traces T -len L [-stream valid|malformed|multi|all]   random streams
+//	verifharness wire -stream pool -seed SHARD -traces T -len L     every command name x every vector of
+//	        length 0..2 over a 20-token hostile pool (and length 3 over its first 8 tokens); shard SHARD
+//	        is the index range [SHARD*T*L, (SHARD+1)*T*L) of the ~96k requests
+//	verifharness wire -stream multiseq -seed SHARD -traces T -len L [-conns 2]   ALL sequences of length L
+//	        over {MULTI, EXEC, DISCARD, ok write, failing write, unparsable, read} (x connection), T per
+//	        shard, each on a fresh database and followed by EXEC + GET on every connection
+//	verifharness wire -script FILE      replay `<conn> arg arg…` lines (reproducing requests of findings)
+//
+// A histogram of command names and reply kinds is printed to stderr at the end.
 
 import (
 	"bufio"
